@@ -41,6 +41,9 @@ Definition aead_rtp_iv (salt : bytes) (ssrc est : Z) : bytes :=
 Definition aead_rtcp_iv (csalt : bytes) (ssrc seq : Z) : bytes :=
   xor_bytes (zeros 2 ++ be_bytes 4 (Z.to_N ssrc) ++ zeros 2 ++ be_bytes 4 (Z.to_N seq))
             (take 12 (csalt ++ zeros 12)).
+(* what the driver's cipher wrapper records when a GCM cipher gets an IV for ENCRYPTION: key fingerprint, the 12 IV
+   octets, four zero octets (same record size as for AES-ICM) *)
+Definition log_gcm_iv (k : ckey) (iv : bytes) : M unit := log_iv (key_fp k ++ take 12 (iv ++ zeros 12) ++ zeros 4).
 (* the IV of the RFC 6904 header-extension cipher (an ICM cipher also under GCM) *)
 Definition xtn_iv (ssrc est : Z) : bytes := zeros 4 ++ be_bytes 4 (Z.to_N ssrc) ++ be64 (est * 65536).
 
@@ -83,6 +86,7 @@ Definition protect_aead (mki_index : Z) : M Z :=
       then exit_with cs else ret tt) ;;;
      put_stream r (set_pending (set_rdbx st (rdbx_add (s_rdbx st) delta)) 0)) ;;;
   let iv := aead_rtp_iv (k_salt k) ssrc est in
+  log_gcm_iv (k_rtp_c k) iv ;;;
   (match k_xtn_c k with Some xk => log_encrypt_iv xk (key_fp xk ++ xtn_iv ssrc est) | None => ret tt end) ;;;
   (* RFC 6904 *)
   (match k_xtn_c k with
@@ -164,11 +168,9 @@ Definition unprotect_aead : M Z :=
      only for authentic packets"; before it the charge preceded the verification) *)
   charge_key r0 ki ;;;
   st <- get_stream r0 ;;
-  (* RFC 6904 on the output *)
-  (match k_xtn_c k with
-   | Some xk => if hdr_x pkt =? 1 then process_xtn st pkt (cipher_start xk (xtn_iv ssrc est)) else ret tt
-   | None => ret tt
-   end) ;;;
+  (* srtp_cryptex_unprotect_cleanup: the shuffle is undone and the profile restored BEFORE the header extension is
+     walked (after the fix "srtp_unprotect_aead restores the cryptex layout before RFC 6904 processing"; the walk used
+     to run over the shuffled buffer, where the last CSRC sits in the place of the extension header) *)
   (if inuse then
      (if inplace then cryptex_restore pkt else ret tt) ;;;
      h <- rd_dst (hdr_len pkt) 2 ;;
@@ -177,6 +179,11 @@ Definition unprotect_aead : M Z :=
      else if profile =? cryptex_two_byte_profile_c then set_profile pkt xtn_hdr_two_byte_profile_c
      else ret tt
    else ret tt) ;;;
+  (* RFC 6904 on the output *)
+  (match k_xtn_c k with
+   | Some xk => if hdr_x pkt =? 1 then process_xtn st pkt (cipher_start xk (xtn_iv ssrc est)) else ret tt
+   | None => ret tt
+   end) ;;;
   check_direction r0 dir_srtp_receiver_c ;;;
   r <- materialize r0 ssrc ;;
   st2 <- get_stream r ;;
@@ -214,6 +221,7 @@ Definition protect_rtcp_aead (mki_index : Z) : M Z :=
   (* srtp_calc_aead_iv_srtcp refuses an index with bit 31 set *)
   (if 2147483648 <=? seq then exit_with st_cipher_fail else ret tt) ;;;
   let iv := aead_rtcp_iv (k_csalt k) ssrc seq in
+  log_gcm_iv (k_rtcp_c k) iv ;;;
   (if conf then
      aad <- rd_src 0 octets_in_rtcp_header_c ;;
      d <- rd_src enc_start enc_len ;;
